@@ -323,6 +323,26 @@ Section P.
             specialize (HS ltac:(nia)).
             destruct (take_nums (lines_of (map cline (firstn j t))) (S w * List.length t)) as [nums r']. cbn [fst] in HS. rewrite HS. reflexivity.
     Qed.
+
+    (* a file with cells of w vertices read with a reader expecting w' <> w vertices per cell yields no mesh *)
+    Lemma vtk_cells_wrong_width (w' : nat) (v : list (K * K * K)) (t : list C) : t <> [] -> w' <> w ->
+      read_vtk_cells round32 zK w' (lines_of (vtk_lines v t)) = None.
+    Proof.
+      intros Ht Hw. unfold vtk_lines, vtk_header.
+      set (LP := [TW "POINTS"; TZ (Z.of_nat (List.length v)); TW "float"] : list tok) in *.
+      set (LC := [TW "POLYGONS"; TZ (Z.of_nat (List.length t)); TZ (Z.of_nat (S w * List.length t))] : list tok) in *.
+      unfold read_vtk_cells. cbn [app]. rewrite !lines_of_cons.
+      rewrite skip_two; [| unfold line_of; rewrite !app_length; cbn [List.length map]; lia | reflexivity | reflexivity].
+      cbn [find_ascii starts_with_word String.eqb Ascii.eqb Bool.eqb]. rewrite readline_line.
+      cbn [find_ascii starts_with_word String.eqb Ascii.eqb Bool.eqb]. rewrite readline_line.
+      cbn [String.eqb Ascii.eqb Bool.eqb orb negb].
+      rewrite lines_of_app, app_assoc, <- lines_of_cons. unfold LP.
+      rewrite (read_points_written v); [| cbn [app]; rewrite lines_of_cons; apply line_of_starts; discriminate].
+      cbn [app]. rewrite lines_of_cons, readline_line. unfold LC.
+      cbn [String.eqb Ascii.eqb Bool.eqb orb negb].
+      replace (Z.of_nat (S w * List.length t) =? Z.of_nat (S w') * Z.of_nat (List.length t))%Z with false; [reflexivity|].
+      symmetry. apply Z.eqb_neq. destruct t as [|c t]; [contradiction|]. cbn [List.length]. nia.
+    Qed.
   End Trunc.
 
   Theorem vtk_tria_truncated (v : list (K * K * K)) (t : list tri) n : (n < List.length (vtk_lines tline 3 v t))%nat ->
@@ -335,4 +355,72 @@ Section P.
   Proof. reflexivity. Qed.
   Lemma write_vtk_tet_lines v t : write_vtk_tet v t = lines_of (vtk_lines qline 4 v t).
   Proof. reflexivity. Qed.
+
+  (* ---- OFF files written by other tools according to the format definition: OFF / counts / vertices / faces "3 a b c",
+          with any number of leading comment lines *)
+  Definition off_lines (comments : list (list tok)) (v : list (K * K * K)) (t : list tri) : list (list tok) :=
+    map (fun c => TW "#" :: c) comments ++
+    [[TW "OFF"]; [TZ (Z.of_nat (List.length v)); TZ (Z.of_nat (List.length t)); TZ 0]] ++ map vline v ++ map tline t.
+
+  Lemma skip_comment_lines (cs : list (list tok)) (l : list tok) rest : forall F, (F > List.length cs)%nat ->
+    starts_with_word l "#" = false ->
+    skip_comments F (lines_of (map (fun c => TW "#" :: c) cs) ++ line_of l ++ rest) = Some (l, rest).
+  Proof.
+    induction cs as [|c cs IH]; intros F HF Hl.
+    - destruct F as [|f]; [cbn in HF; lia|]. cbn [map lines_of flat_map app skip_comments]. rewrite readline_line, Hl. reflexivity.
+    - destruct F as [|f]; [cbn in HF; lia|]. cbn [map]. rewrite lines_of_cons, <- app_assoc. cbn [skip_comments].
+      rewrite readline_line. cbn [starts_with_word String.eqb Ascii.eqb Bool.eqb]. apply IH; [cbn in HF; lia|exact Hl].
+  Qed.
+  Lemma max_first_col (t : list tri) : t <> [] -> fold_right Z.max 0%Z (map (hd 0%Z) (map trow t)) = 3%Z.
+  Proof.
+    induction t as [|[[a b] c] t IH]; [contradiction|]. intros _. cbn [map trow hd fold_right].
+    destruct t as [|t' ts]; [reflexivity|]. rewrite IH by discriminate. reflexivity.
+  Qed.
+
+  Theorem off_file_loads (comments : list (list tok)) (v : list (K * K * K)) (t : list tri) : t <> [] ->
+    read_off round32 zK (lines_of (off_lines comments v t)) = Some (map r3 v, t).
+  Proof.
+    intros Ht. unfold read_off, off_lines.
+    set (LO := [TW "OFF"] : list tok).
+    set (LN := [TZ (Z.of_nat (List.length v)); TZ (Z.of_nat (List.length t)); TZ 0] : list tok).
+    rewrite lines_of_app. cbn [app]. rewrite !lines_of_cons, lines_of_app.
+    set (Body := lines_of (map vline v) ++ lines_of (map tline t)).
+    rewrite skip_comment_lines; [| rewrite !app_length | reflexivity].
+    2:{ assert (L : forall cs : list (list tok), (List.length (lines_of (map (fun c => TW "#" :: c) cs)) >= List.length cs)%nat).
+        { induction cs as [|c cs IH]; [cbn; lia|]. cbn [map]. rewrite lines_of_cons, app_length. unfold line_of at 1.
+          rewrite app_length. cbn [List.length map]. lia. }
+        specialize (L comments). lia. }
+    cbn [starts_with_word LO String.eqb Ascii.eqb Bool.eqb negb].
+    rewrite readline_line. unfold LN. rewrite !Nat2Z.id. unfold Body.
+    rewrite <- vlines_len.
+    rewrite (take_nums_lines _ _ (vlines_num v)).
+    2:{ destruct t as [|[[a b] c] t]; [contradiction|]. cbn [map]. rewrite lines_of_cons. apply line_of_starts. discriminate. }
+    rewrite Nat.eqb_refl. cbn [negb].
+    assert (D := vlines_decode v). destruct (all_some (map (numK round32 zK) (List.concat (map vline v)))) as [ks|]; [|discriminate].
+    rewrite D.
+    rewrite <- (app_nil_r (lines_of (map tline t))), <- tlines_len.
+    rewrite (take_nums_lines _ _ (tlines_num t) (or_introl eq_refl)). rewrite Nat.eqb_refl. cbn [negb].
+    rewrite tlines_tokZ.
+    rewrite (chunkn_concat 4 (map trow t)).
+    - rewrite max_first_col by assumption. cbn [Z.eqb Pos.eqb negb]. rewrite rows3_back. reflexivity.
+    - lia.
+    - apply Forall_forall. intros r Hr. apply in_map_iff in Hr. destruct Hr as ([[a b] c] & <- & _). reflexivity.
+    - assert (L : List.length (List.concat (map trow t)) = (4 * List.length t)%nat).
+      { clear. induction t as [|[[a b] c] t IH]; [reflexivity|]. cbn [map List.concat trow app List.length]. rewrite IH. lia. }
+      rewrite L, map_length. lia.
+  Qed.
+
+  (* wrong kind of file: a tetrahedral VTK file is rejected by the triangle reader and vice versa; a VTK file is not an OFF file *)
+  Theorem vtk_tet_file_rejected_by_tria_reader (v : list (K * K * K)) (t : list tet) : t <> [] ->
+    read_vtk_tria round32 zK (write_vtk_tet v t) = None.
+  Proof. intros H. rewrite write_vtk_tet_lines. unfold read_vtk_tria. rewrite (vtk_cells_wrong_width qline 4 3 v t H); [reflexivity|lia]. Qed.
+  Theorem vtk_tria_file_rejected_by_tet_reader (v : list (K * K * K)) (t : list tri) : t <> [] ->
+    read_vtk_tet round32 zK (write_vtk_tria v t) = None.
+  Proof. intros H. rewrite write_vtk_tria_lines. unfold read_vtk_tet. rewrite (vtk_cells_wrong_width tline 3 4 v t H); [reflexivity|lia]. Qed.
+  Theorem vtk_file_rejected_by_off_reader (v : list (K * K * K)) (t : list tri) : read_off round32 zK (write_vtk_tria v t) = None.
+  Proof.
+    unfold write_vtk_tria, vtk_header, read_off. cbn [app]. rewrite !lines_of_cons.
+    rewrite skip_two; [| unfold line_of; rewrite !app_length; cbn [List.length map]; lia | reflexivity | reflexivity].
+    reflexivity.
+  Qed.
 End P.
